@@ -19,7 +19,7 @@ CONSTANTS MaxLen, NMax
 LenTab == IntTable(IOEnv.LEN_FILE)
 Tab == IntTable(IOEnv.TABLE_FILE)
 NL == 4
-Dt == FRat(1, 4)
+Dt == FStr("0.3")          \* 1/dt is not a whole number of Hz
 
 VARIABLES part, npts, xs, code
 vars == <<part, npts, xs, code>>
